@@ -48,13 +48,18 @@ def drive(task):
     if task["kind"] == "small":
         for i, src in enumerate(pdasrc.small_pdas(3)):
             if i % task["parts"] == task["part"] and (i // task["parts"]) % task["stride"] == 0:
+                if (i // task["parts"]) % 4 == 1:
+                    src = dict(src, qnames=i % 16)
                 yield from events(src, task["n"])
         if task["part"] == 0:
             for src in pdasrc.SPECIAL:
                 yield from events(src, task["n"])
     else:
         for i in range(task["count"]):
-            yield from events({"kind": "pda_rnd", "seed": task["seed"] * 100000 + i}, task["n"])
+            src = {"kind": "pda_rnd", "seed": task["seed"] * 100000 + i}
+            if i % 3 == 2:
+                src["qnames"] = i // 3           # states named like the names the constructions generate
+            yield from events(src, task["n"])
 
 
 def redrive(src):
@@ -70,7 +75,9 @@ MODELS = {"quick": [("PdaNormal", "PdaNormal_q.cfg", "one-accepting / push-pop /
                        ("PdaNormal", "PdaNormal_cfg2.cfg", "triple construction, <= 2 moves"),
                        ("PdaNormal", "PdaNormal_names.cfg", "name clashes", {"allow_untaken": True})]}
 RULE = ("PDAs as in C09 (2-state universe sampled, 7 hand-written ones incl. several/no accepting states, acceptance "
-        "with non-empty stack, replace and no-op moves, '$'/'@' already stack symbols, random 1-3 state PDAs); the four "
+        "with non-empty stack, replace and no-op moves, '$'/'@' already stack symbols, random 1-3 state PDAs; every "
+        "third / fourth PDA with states named like the names the constructions generate: M1, M2, q_accept1, q_drain1, "
+        "...); the four "
         "public transformations per PDA; languages compared on all words <= 3 with the saturation semantics (PDA side) "
         "and the derivability fix-point (grammar side); non-trivial = PDA accepts at least one word; distinct = "
         "distinct (transformation, PDA)")
